@@ -164,12 +164,11 @@ impl<'a, E: Elem> GConv<'a, E> {
                 let (after, dst_addr) = with_bx!(&bx; x, N => { let _ = N::USIZE; (ids_of(x.as_slice(), 957), x.as_slice().as_ptr() as usize) });
                 self.check_same_ids(cx, "Vec/Box<[T]> -> Box<GenericArray>", &before, &after);
                 if cx.checks.c15 && tight && l == n {
-                    // "hands over the same block without copying": the block must be the same, and no
-                    // request at least as large as the block may have been made meanwhile (a copy
-                    // needs one); unrelated small allocator traffic is not pinned down and not flagged
-                    if block_nonzero && ev.2 >= block_bytes {
-                        fail("C15-not-o1", format!("try_from_{}::<{n}> requested a block of {} bytes while converting a {}-byte block ({} allocator call(s)); it is documented to hand over the same block", if is_box { "boxed_slice" } else { "vec (len == capacity)" }, ev.2, block_bytes, ev.1 - ev.0));
-                    } else if block_nonzero && dst_addr != src_addr {
+                    // "hands over the same heap block without copying": the result must live in the very
+                    // block it was given (a copy would have to live somewhere else while the source block
+                    // is still allocated); allocator traffic as such is not pinned down and not flagged
+                    let _ = (ev, block_bytes);
+                    if block_nonzero && dst_addr != src_addr {
                         fail("C15-not-o1", format!("try_from_{}::<{n}> returned a different block than it was given", if is_box { "boxed_slice" } else { "vec" }));
                     }
                     cx.probe("O(1) conversion checked for allocator silence");
@@ -209,9 +208,8 @@ impl<'a, E: Elem> GConv<'a, E> {
                 let after = ids_of(v.as_slice(), 959);
                 self.check_same_ids(cx, "Box<GenericArray> -> Vec/Box<[T]>", &before, &after);
                 if cx.checks.c15 {
-                    if block_nonzero && ev.2 >= block_bytes {
-                        fail("C15-not-o1", format!("{}::<{n}> requested a block of {} bytes while converting a {}-byte block ({} allocator call(s)); it is documented to hand over the same block", if boxed { "into_boxed_slice" } else { "into_vec" }, ev.2, block_bytes, ev.1 - ev.0));
-                    } else if block_nonzero && v.as_slice().as_ptr() as usize != src_addr {
+                    let _ = (ev, block_bytes);
+                    if block_nonzero && v.as_slice().as_ptr() as usize != src_addr {
                         fail("C15-not-o1", format!("{}::<{n}> returned a different block than it was given", if boxed { "into_boxed_slice" } else { "into_vec" }));
                     }
                     cx.probe("O(1) conversion checked for allocator silence");
@@ -340,8 +338,15 @@ impl<'a, E: Elem> GConv<'a, E> {
         if which >= 6 {
             // the `[x; <usize expr>]` form with a plain Copy value (the form's own contract asks for no more)
             let r = lib(|| {
-                let b = if which == 6 { box_arr![7u32; 6].to_vec() } else { box_arr![9u32; 1].to_vec() };
-                b
+                if which == 6 {
+                    let b = box_arr![7u32; 6];
+                    let _g = enter(Ctx::Infra);
+                    b.to_vec()
+                } else {
+                    let b = box_arr![9u32; 1];
+                    let _g = enter(Ctx::Infra);
+                    b.to_vec()
+                }
             });
             cx.cov(&[OpKind::BoxArrMacro as u64, which as u64, r.is_err() as u64]);
             match r {
